@@ -67,6 +67,61 @@ def _fn_ast(fn):
     return ast.parse(textwrap.dedent(inspect.getsource(raw))).body[0]
 
 
+PREPROCESSED = []
+
+
+class _PatSpy(object):
+    def __init__(self, pat, log):
+        self._pat, self._log = pat, log
+
+    def __getattr__(self, name):
+        return getattr(self._pat, name)
+
+    def _rec(self, meth, string, *a):
+        self._log.append((meth, string, a))
+        return getattr(self._pat, meth)(string, *a)
+
+    def search(self, string, *a):
+        return self._rec("search", string, *a)
+
+    def match(self, string, *a):
+        return self._rec("match", string, *a)
+
+    def fullmatch(self, string, *a):
+        return self._rec("fullmatch", string, *a)
+
+
+def observed_method(cls, attr):
+    """Run the real cls.init_from_string once on a probe string with cls.<attr> (a compiled pattern) wrapped: -> the method name it
+    calls on that pattern.  The pattern must be applied exactly once, to the unmodified argument, without pos/endpos, and a
+    non-matching string must be rejected with BadURIError."""
+    probe = b" URI:probe-that-matches-nothing \n"
+    real = getattr(cls, attr)
+    log = []
+    owner = [k for k in cls.__mro__ if attr in k.__dict__][0]
+    setattr(owner, attr, _PatSpy(real, log))
+    try:
+        try:
+            cls.init_from_string(probe)
+            outcome = "returned"
+        except uri.BadURIError:
+            outcome = "BadURIError"
+        except Exception as e:
+            outcome = type(e).__name__
+    finally:
+        setattr(owner, attr, real)
+    if len(log) != 1:
+        raise hlib.HarnessError("%s.init_from_string applied %s %d times to a probe string" % (cls.__name__, attr, len(log)))
+    (meth, subject, extra) = log[0]
+    if subject != probe or extra:
+        # not representable in the model; the comparison with the real code on the corpus (validate_all) decides whether this already is a
+        # violation (a padded string accepted and printed back differently) -- otherwise validate_all ends with a harness error
+        PREPROCESSED.append("%s.init_from_string does not apply %s.%s to its whole, unmodified argument" % (cls.__name__, attr, meth))
+    if outcome != "BadURIError":
+        raise hlib.HarnessError("%s.init_from_string on a non-matching string: %s (expected BadURIError)" % (cls.__name__, outcome))
+    return meth
+
+
 def _dotted(node):
     if isinstance(node, ast.Name):
         return node.id
@@ -110,16 +165,14 @@ class FileModel(object):
 
     def _read_init_from_string(self):
         f = _fn_ast(self.cls.__dict__["init_from_string"])
-        self.method = None
-        for n in ast.walk(f):
-            if isinstance(n, ast.Call) and isinstance(n.func, ast.Attribute) and _dotted(n.func.value) == "cls.STRING_RE":
-                if self.method is not None:
-                    raise hlib.HarnessError("%s.init_from_string uses STRING_RE twice" % self.name)
-                self.method = n.func.attr
-                if [(_dotted(a)) for a in n.args] != ["uri"] or n.keywords:
-                    raise hlib.HarnessError("%s.init_from_string: STRING_RE.%s not applied to the whole argument" % (self.name, n.func.attr))
-        if self.method not in ("search", "match", "fullmatch"):
-            raise hlib.HarnessError("%s.init_from_string: cannot find the regex call" % self.name)
+        # which pattern object and which method (search/match/fullmatch) the real init_from_string applies to its argument: observed
+        # on one real call with the class's compiled pattern wrapped (independent of helper indirection / local restructuring)
+        self.method = observed_method(self.cls, "STRING_RE")
+        # cross-check with the AST when the call is written directly in the method
+        direct = [n.func.attr for n in ast.walk(f) if isinstance(n, ast.Call) and isinstance(n.func, ast.Attribute)
+                  and _dotted(n.func.value) == "cls.STRING_RE"]
+        if direct and direct != [self.method]:
+            raise hlib.HarnessError("%s.init_from_string: AST says STRING_RE.%s but the real call used %s" % (self.name, direct, self.method))
         rets = [n for n in ast.walk(f) if isinstance(n, ast.Return)]
         if len(rets) != 1 or not isinstance(rets[0].value, ast.Call) or _dotted(rets[0].value.func) != "cls" or rets[0].value.keywords:
             raise hlib.HarnessError("%s.init_from_string: unexpected return shape" % self.name)
@@ -338,6 +391,7 @@ class DirModel(object):
         self.name = cls.__name__
         self.base = cls.BASE_STRING
         self.base_rx = Rx(cls.BASE_STRING_RE)
+        self.base_method = observed_method(cls, "BASE_STRING_RE")
         self.inner = files[cls.INNER_URI_CLASS.__name__]
         # to_string uses the inner class's BASE_STRING as a *pattern* for re.match
         self.inner_base_rx = Rx(re.compile(self.inner.cls.BASE_STRING))
@@ -360,7 +414,7 @@ class DirModel(object):
         """init_from_string: mo = BASE_STRING_RE.search(uri); bits = uri[mo.end():];
         INNER.init_from_string(INNER.BASE_STRING + bits)"""
         out = []
-        for (c, _g, _pre, suf, v) in self.base_rx.match_sym(s, "search", tag + "_b"):
+        for (c, _g, _pre, suf, v) in self.base_rx.match_sym(s, self.base_method, tag + "_b"):
             if suf is None:
                 bits = z3.StringVal("")
             else:
@@ -614,6 +668,7 @@ def dispatch_index(s, chain, flags=None):
 # ---- assembling + validation -------------------------------------------------------------------
 
 def build():
+    del PREPROCESSED[:]
     files = {}
     for c in file_classes():
         files[c.__name__] = FileModel(c)
@@ -746,6 +801,12 @@ def corpus():
     return out
 
 
+class RealCodeViolation(Exception):
+    def __init__(self, w, what):
+        Exception.__init__(self, what)
+        self.w, self.what = w, what
+
+
 def real_from_string(u, deep_immutable):
     r = uri.from_string(u, deep_immutable=deep_immutable)
     if isinstance(r, uri.UnknownURI):
@@ -763,7 +824,7 @@ def validate_all(models, chain, level="full"):
         if isinstance(m, FileModel):
             n += m.rx.validate(cp, m.method)
         else:
-            n += m.base_rx.validate(cp, "search")
+            n += m.base_rx.validate(cp, m.base_method)
             n += m.inner_base_rx.validate(cp, "match")
     for u in (cp if level == "full" else cp[::7]):
         for deep in (False, True):
@@ -773,8 +834,16 @@ def validate_all(models, chain, level="full"):
                 raise hlib.HarnessError("from_string(%r) raised %r on the validation corpus" % (u, e))
             mod = model_from_string(u, deep, models, chain)
             if real != mod:
+                if real[0] != "UnknownURI" and not u.startswith((b"ro.", b"imm.")):
+                    t = uri.from_string(u, deep_immutable=deep).to_string()
+                    if t != u and not (any(u.startswith(k.encode()) for k in MDMF_KINDS) and u.startswith(t + b":")):
+                        # the real parser accepts a string as a known kind that does not print back to itself: that is the property's
+                        # violation itself, found while comparing model and code on the corpus
+                        raise RealCodeViolation(u, "uri.from_string(%r) is a %s whose to_string() is %r" % (u, real[0], t))
                 raise hlib.HarnessError("from_string model disagrees with real code on %r (deep_immutable=%s): real=%r model=%r" % (u, deep, real, mod))
             n += 1
+    if PREPROCESSED:
+        raise hlib.HarnessError(PREPROCESSED[0])
     # ideal conversions vs the real base32 / int on the corpus groups
     c32 = CANON32_ANY()
     for m in models.values():
